@@ -6,6 +6,7 @@ import wgslgen as W
 import obs
 
 ID = "C03"
+VALIDATE_MIX = True
 REQUIRES = ["Agree", "C03Spec", "Truth"]
 THEOREM_REQUIRES = ["C03"]
 THEOREMS = ["C03_traversal", "C03_holds_bool", "C03_holds", "C03_static_access_b_spec"]
